@@ -125,6 +125,8 @@ struct World6 {
     max_single_seen: usize,
     convergence_checks: u64,
     frames: u64,
+    /// a panic unwound through App::update: the world is poisoned, nothing more is fed
+    dead: bool,
 }
 
 impl World6 {
@@ -158,6 +160,7 @@ impl World6 {
             max_single_seen: 0,
             convergence_checks: 0,
             frames: 0,
+            dead: false,
         };
         if auth == AuthMethod::Custom {
             w.server.world_mut().entity_mut(good_ent).insert(AuthorizedClient);
@@ -175,6 +178,7 @@ impl World6 {
             let p = take_panic().unwrap_or_default();
             let p: String = p.lines().take(2).collect::<Vec<_>>().join(" ").chars().take(300).collect();
             self.errs.push(format!("server panicked while processing {what}: {p}"));
+            self.dead = true;
             return false;
         }
         true
@@ -182,6 +186,9 @@ impl World6 {
 
     /// Lock-step exchange with the well-behaved client.
     fn exchange_good(&mut self) -> bool {
+        if self.dead {
+            return false;
+        }
         if !self.server_update("legitimate traffic") {
             return false;
         }
@@ -205,6 +212,9 @@ impl World6 {
     }
 
     fn feed_batch(&mut self, sender_auth: bool, batch: &[(usize, Vec<u8>)]) {
+        if self.dead {
+            return;
+        }
         let sender = if sender_auth { self.authd } else { self.unauth };
         let mut total_len = 0;
         for (ch, bytes) in batch {
